@@ -680,7 +680,8 @@ def suppress(x, tol=1e-8, clip=True):
     mask = abs(x) < tol
     if not clip:
         # preserve sum by spreading suppressed values to the non-zero elements
-        x[mask==False] = (x + sum(x[mask])/(len(mask)-sum(mask)))[mask==False]
+        n = len(mask)-sum(mask)
+        if n: x[mask==False] = (x + sum(x[mask])/n)[mask==False]
     x[mask] = 0.0
     return x.tolist()
 
